@@ -16,7 +16,7 @@ RULE = ("every spec of all four universes (all MolGraph classes n<=4 over {C,H,O
         "Oracle: json_deserialize(json_serialize(g)) has the same class and an identical normalised snapshot (atoms, elements, "
         "bonds, roles, exact descriptor tuples and parities, changes); == and hash agree with the original.  distinct = (spec, pool)")
 ASSUMPTIONS = ["atom/bond attributes other than the element and the reaction role are not part of the JSON format and are not compared"]
-BUDGET = {"quick": 120, "thorough": 900}
+BUDGET = {"quick": 600, "thorough": 900}
 MG, SMG, CRG, SCRG = RG.MG, RG.SMG, RG.CRG, RG.SCRG
 BIGPOOL = [2147483648 + 7 * i for i in range(20)]
 NEGPOOL = [-5, 3, -1, 0, 12, -40, 7, 2, -2, 9, 100, -100, 55, 1, -3, 4, 6, 8, 10, 11]
